@@ -167,17 +167,20 @@ func verifC19RawCall(ctx context.Context, req *conformancev1.ClientCompatRequest
 		}
 		data := respBody[5 : 5+size]
 		respBody = respBody[5+size:]
+		last := (req.Protocol == conformancev1.Protocol_PROTOCOL_CONNECT && flags&2 != 0) ||
+			(req.Protocol == conformancev1.Protocol_PROTOCOL_GRPC_WEB && flags&0x80 != 0)
+		if last && flags&1 != 0 {
+			// the server answers in the encoding of the request, end-of-stream message / trailers included
+			decomp, err := compression.GetDecompressor(req.Compression)
+			if err != nil || decomp.Reset(bytes.NewReader(data)) != nil {
+				return "", payloads, "raw-end-stream"
+			}
+			if data, err = io.ReadAll(decomp); err != nil {
+				return "", payloads, "raw-end-stream"
+			}
+		}
 		switch {
 		case req.Protocol == conformancev1.Protocol_PROTOCOL_CONNECT && flags&2 != 0:
-			if flags&1 != 0 { // the server answers in the encoding of the request
-				decomp, err := compression.GetDecompressor(req.Compression)
-				if err != nil || decomp.Reset(bytes.NewReader(data)) != nil {
-					return "", payloads, "raw-end-stream"
-				}
-				if data, err = io.ReadAll(decomp); err != nil {
-					return "", payloads, "raw-end-stream"
-				}
-			}
 			var endStream struct {
 				Error *struct {
 					Code string `json:"code"`
@@ -192,6 +195,7 @@ func verifC19RawCall(ctx context.Context, req *conformancev1.ClientCompatRequest
 			}
 		case req.Protocol == conformancev1.Protocol_PROTOCOL_GRPC_WEB && flags&0x80 != 0:
 			ended = true
+			code = "missing" // trailers must carry a status
 			for _, line := range strings.Split(string(data), "\r\n") {
 				if name, val, ok := strings.Cut(line, ":"); ok && strings.EqualFold(strings.TrimSpace(name), "grpc-status") {
 					code = strings.TrimSpace(val)
